@@ -1,7 +1,6 @@
 SPECIFICATION Spec
 CONSTANTS
   N = 2
-  Lo = -1
-  Hi = 1
+  Rad = 1
   Bug = 11
 INVARIANTS CenterLaw
